@@ -15,7 +15,11 @@ for name in args:
     old = tab.get(name.lstrip('+'), {})
     eff = bool(old.get('effects')) or name.startswith('+')
     name = name.lstrip('+')
-    ex, inl = census.compute(P, name, tuple(old.get('opaque', ())), eff)
+    sinks = old.get('sinks')
+    if '@' in name:
+        name, sinks = name.split('@', 1)
+        old = tab.get(name, {})
+    ex, inl = census.compute(P, name, tuple(old.get('opaque', ())), eff, sinks)
     if show:
         print('==', name, ' inlined:', sorted(set(inl)))
         for e in ex:
@@ -24,7 +28,7 @@ for name in args:
             for a in e['full']:
                 print('         ', a[:400])
         continue
-    ent = {'effects': eff, 'note': old.get('note', 'TODO review'), 'opaque': old.get('opaque', []), 'inlined': sorted(set(inl)),
+    ent = {'effects': eff, 'sinks': sinks, 'note': old.get('note', 'TODO review'), 'opaque': old.get('opaque', []), 'inlined': sorted(set(inl)),
            'exits': [{k: e[k] for k in ('cls', 'label', 'trigger', 'atoms', 'full')} for e in ex]}
     ent['floor'] = len([e for e in ex if e['cls'] in ('reject', 'exact')]) + len([e for e in ex if e['cls'] == 'accept'])
     tab[name] = ent
